@@ -846,12 +846,6 @@ func (g *gen) genNTS() {
 			g.add("nts.clireq", "nt", lib.V(lib.I(int64(navail)), lib.I(int64(clen))))
 		}
 	}
-	if os.Getenv("C08_SKIP_KNOWN") == "" {
-		for _, clen := range []int{929, 930, 936, 1000, 4000, 65535} {
-			g.add("nts.clireq", "nt,longcookie", lib.V("8", lib.I(int64(clen))))
-			g.add("nts.clireq", "nt,longcookie", lib.V("1", lib.I(int64(clen))))
-		}
-	}
 }
 
 func record(t uint16, body []byte) []byte {
